@@ -184,6 +184,10 @@ func run(c *mon.Ctx) {
 	nPrng := c.Pick(1500, 60000)
 	mon.Parallel(nPrng, func(i int) { runPrngHistory(c, i) })
 	c.Count("shim_prng_histories", int64(nPrng))
+	// A3 accepted pages, then the request fails
+	nAbort := c.Pick(300, 6000)
+	mon.Parallel(nAbort, func(i int) { runAbortBuffered(c, i) })
+	c.Count("shim_abort_buffered_histories", int64(nAbort))
 	phases := map[string]float64{"shim_in_parent_s": time.Since(t0).Seconds()}
 
 	for _, ch := range children {
@@ -387,6 +391,8 @@ func replay(c *mon.Ctx) {
 		for i := 0; i < 20 && c.ViolationCount() == 0; i++ {
 			runShimConcurrent(c, d.Index)
 		}
+	case d.History.Kind == "abort-buffered":
+		runAbortBuffered(c, d.History.Index)
 	case d.History.Kind == "perm":
 		runPermCase(c, d.History.Case)
 	case d.History.Kind == "prng":
